@@ -29,24 +29,63 @@ def runRfHeap (nostd : Bool) (v : RefVariant) (evs : List String) : M Unit := do
   let hasArm : RefVariant → Bool :=
     if nostd then toDynHasArmIn nostdFeats nostdFeats else toDynHasArm harnessCallerFeats
   let mut s := RState.init v
+  -- borrows kept alive by `hr` / `hm` until `hx` (`rc` only): the cell's dynamic borrow state and the stack of (handle, exclusive?)
+  let mut cb : CellBorrow := {}
+  let mut held : List (Nat × Bool) := []
+  let isHeld := fun (hs : List (Nat × Bool)) (h : Nat) => hs.any (fun p => p.1 == h)
+  -- while a borrow is held, access through a raw alias would bypass the `RefCell`: not a legal test line
+  let rawBlocked := fun (st : RState) (hs : List (Nat × Bool)) (h : Nat) =>
+    !hs.isEmpty && (match st.slot h with | .ok x => !x.variant.counted | .error _ => false)
   for e in evs do
     match e.splitOn ":" with
+    | ["hr", h] | ["hm", h] =>
+      if v != .rcRefCell then noimpl
+      let h ← need h.toNat?
+      let x ← liftH (s.slot h)
+      if !x.variant.counted then throw .bad
+      let _ ← liftH (s.heap.cell x.addr)
+      let excl := e.startsWith "hm:"
+      cb ← liftP (if excl then cb.exclusive else cb.shared)
+      held := (h, excl) :: held; emit "-"
+    | ["hx"] =>
+      match held with
+      | [] => throw .bad
+      | (_, excl) :: rest => cb := cb.release excl; held := rest; emit "-"
     | ["cl", h] => s ← liftH (s.clone (← need h.toNat?)); emit "-"
     | ["dy", h] => s ← liftH (s.toDynCloneWith hasArm (← need h.toNat?)); emit "-"
-    | ["dm", h] => s ← liftH (s.toDynMoveWith hasArm (← need h.toNat?)); emit "-"
+    | ["dm", h] =>
+      let h ← need h.toNat?
+      if isHeld held h then throw .bad
+      s ← liftH (s.toDynMoveWith hasArm h); emit "-"
     | ["al", h] => s ← liftH (s.rawAlias (← need h.toNat?)); emit "-"
     | ["cf", i, j] =>
       let i ← need i.toNat?; let j ← need j.toNat?
       let hi ← liftH (s.slot i); let hj ← liftH (s.slot j)
-      if hi.isDyn != hj.isDyn then throw .bad
+      if hi.isDyn != hj.isDyn || i == j || isHeld held i then throw .bad
       s ← liftH (s.cloneFrom i j); emit "-"
-    | ["rd", h] => emit (sIt (← liftH (s.read (← need h.toNat?))))
-    | ["wr", h, x] => s ← liftH (s.write (← need h.toNat?) (← need x.toInt?)); emit "-"
+    | ["rd", h] =>
+      let h ← need h.toNat?
+      if rawBlocked s held h then throw .bad
+      let x ← liftH (s.read h)
+      if !cb.canRead then throw (.panic .borrow)
+      emit (sIt x)
+    | ["wr", h, x] =>
+      let h ← need h.toNat?
+      if rawBlocked s held h then throw .bad
+      let s' ← liftH (s.write h (← need x.toInt?))
+      if !cb.canWrite then throw (.panic .borrow)
+      s := s'; emit "-"
     | ["inc", h] =>
       let h ← need h.toNat?
+      if rawBlocked s held h then throw .bad
       let x ← liftH (s.read h)
-      s ← liftH (s.write h (x + 1)); emit "-"
-    | ["dr", h] => s ← liftH (s.drop (← need h.toNat?)); emit "-"
+      let s' ← liftH (s.write h (x + 1))
+      if !cb.canWrite then throw (.panic .borrow)
+      s := s'; emit "-"
+    | ["dr", h] =>
+      let h ← need h.toNat?
+      if isHeld held h then throw .bad
+      s ← liftH (s.drop h); emit "-"
     | ["live"] => emit (sB s.live0)
     | _ => throw .bad
 
@@ -63,7 +102,7 @@ def runRf (_chk : Bool) (nostd : Bool) (toks : List String) : M Unit := do
     let v ← need (pVariant v)
     -- the lock variants exist only in builds with `std` (the harness answers `NOIMPL` for them otherwise)
     if nostd && !(variantExists nostdFeats v) then noimpl
-    if evs.any (fun e => e.startsWith "al:" || e.startsWith "cf:" || e.startsWith "dm:") then
+    if evs.any (fun e => e.startsWith "al:" || e.startsWith "cf:" || e.startsWith "dm:" || e.startsWith "hr:" || e.startsWith "hm:" || e == "hx") then
       runRfHeap nostd v evs
       return
     let mut c := RefCase.init v
